@@ -41,7 +41,7 @@ _modcount = [0]
 
 
 def budget(tier):
-    return {"examples": 300 if tier == "quick" else 5000}
+    return {"examples": 300 if tier == "quick" else 3000}
 
 
 def essential_labels(tier):
